@@ -133,6 +133,11 @@ PatternsX ==
      "True", "A()", "B()", "Color.RED | Color.GREEN", "[]", "[a]", "(int() | str()) as a", "list()", "tuple()", "dict()",
      "{'a': 1}", "[int() as a, str() as b]", "None | int()", "[(a, b), *rest]", "(a, (b, c))", "{}", "float()", "bool()",
      "[*rest, a]", "[a, *rest, b]", "int() | None", "list() | tuple()", "Box(item=a)", "Pt(px=a, py=b)", "[None, *rest]",
+     \* guards that yield no constraint (len(m) > len(d) is false, len(m) >= len(d) true while m and d are empty)
+     "int() if len(m) > len(d)", "1 if len(m) > len(d)", "None if len(m) > len(d)", "str() if len(m) > len(d)",
+     "Color.RED if len(m) > len(d)", "'a' if len(m) > len(d)", "(a, b) if len(m) > len(d)", "True if len(m) > len(d)",
+     "int() | None if len(m) > len(d)", "[a, *rest] if len(m) > len(d)", "1 | 2 if len(m) > len(d)", "2 if ident(ok)",
+     "1 if len(m) >= len(d)", "None if len(m) >= len(d)", "'a' | 'b' if takes_int(v)", "Color.GREEN if ident(v)",
      "a if a", "int() if ok", "_ if isinstance(x, str)", "(a, b) if a", "[a, *rest] if rest", "str() if x"}
 PatternsY == {"int() if y", "a if y is None", "_ if isinstance(y, int)", "(a, b) if a == y", "_ if x == y"}
 
@@ -169,7 +174,13 @@ RaiseLines == {"raise ValueError()", "raise TypeError(x)", "return"}
 
 CONSTANTS MaxStmts, MaxDepth,
           UseY,      \* FALSE: only tokens that do not mention y are used (TY is then irrelevant and fixed)
-          Cats       \* enabled statement categories
+          Cats,      \* enabled statement categories
+          Slice      \* "all", or "narrow": the narrowing slice (every test / every pattern pair, bodies that just read x)
+
+\* the catalogues of the slice
+ExprsXS == IF Slice = "narrow" THEN {"x"} ELSE ExprsX
+Patterns2 == IF Slice = "narrow" THEN {"_", "a", "int()", "str()", "None", "(a, b)"} ELSE PatternsX
+MatchSubjectsXS == IF Slice = "narrow" THEN {"x"} ELSE MatchSubjectsX
 
 VARIABLES stack, n, tx, ty, done, pick, pend, usesy
 mvars == <<stack, n, tx, ty, done, pick, pend, usesy>>
@@ -217,13 +228,13 @@ More(t, y) == /\ pend' = Append(pend, t) /\ usesy' = (usesy \/ y) /\ UNCHANGED <
 
 AddSimple ==
     /\ done = "gen"
-    /\ \/ pick = "assign-v" /\ \/ \E e \in ExprsX : PushStmt(Line("v = " \o e), FALSE)
+    /\ \/ pick = "assign-v" /\ \/ \E e \in ExprsXS : PushStmt(Line("v = " \o e), FALSE)
                                \/ \E e \in YSet(ExprsY) : PushStmt(Line("v = " \o e), TRUE)
-       \/ pick = "assign-x" /\ \/ \E e \in ExprsX : PushStmt(Line("x = " \o e), FALSE)
+       \/ pick = "assign-x" /\ \/ \E e \in ExprsXS : PushStmt(Line("x = " \o e), FALSE)
                                \/ \E e \in YSet(ExprsY) : PushStmt(Line("x = " \o e), TRUE)
-       \/ pick = "expr" /\ \/ \E e \in ExprsX : PushStmt(Line(e), FALSE)
+       \/ pick = "expr" /\ \/ \E e \in ExprsXS : PushStmt(Line(e), FALSE)
                            \/ \E e \in YSet(ExprsY) : PushStmt(Line(e), TRUE)
-       \/ pick = "return" /\ \/ \E e \in ExprsX : PushStmt(Jump("return " \o e), FALSE)
+       \/ pick = "return" /\ \/ \E e \in ExprsXS : PushStmt(Jump("return " \o e), FALSE)
                              \/ \E e \in YSet(ExprsY) : PushStmt(Jump("return " \o e), TRUE)
        \/ pick = "unpack" /\ pend = << >> /\ \E t \in UnpackTargets : More(t, FALSE)
        \/ pick = "unpack" /\ pend # << >> /\ \/ \E e \in UnpackExprsX : PushStmt(Line(pend[1] \o " = " \o e), FALSE)
@@ -267,12 +278,12 @@ Open ==
        \/ pick = "try" /\ pend # << >> /\ \E hs \in TryShapes(pend[1]) : OpenFrame(Frame("try", "", hs, Len(hs)), FALSE)
        \/ pick = "with" /\ \/ \E w \in WithItemsX : OpenFrame(Frame("with", "", Heads1("with", w), 1), FALSE)
                            \/ \E w \in YSet(WithItemsY) : OpenFrame(Frame("with", "", Heads1("with", w), 1), TRUE)
-       \/ pick = "match" /\ Len(pend) = 0 /\ \/ \E s \in MatchSubjectsX : More(s, FALSE)
+       \/ pick = "match" /\ Len(pend) = 0 /\ \/ \E s \in MatchSubjectsXS : More(s, FALSE)
                                              \/ \E s \in YSet(MatchSubjectsY) : More(s, TRUE)
        \* an irrefutable pattern is only legal in the last case
        \/ pick = "match" /\ Len(pend) = 1 /\ \/ \E p \in PatternsX \ {"_", "a"} : More(p, FALSE)
                                              \/ \E p \in YSet(PatternsY) : More(p, TRUE)
-       \/ pick = "match" /\ Len(pend) = 2 /\ \E p \in PatternsX \ {pend[2]} :
+       \/ pick = "match" /\ Len(pend) = 2 /\ \E p \in Patterns2 \ {pend[2]} :
                OpenFrame(Frame("match", "match " \o pend[1] \o ":", <<"case " \o pend[2] \o ":", "case " \o p \o ":">>, 2), FALSE)
 
 NextPart ==
@@ -374,6 +385,7 @@ HasShapedTuple(T) ==
       [] T.k = "union" -> \E i \in 1..Len(T.ms) : HasShapedTuple(T.ms[i])
       [] OTHER -> FALSE
 KeyBreakSupp == "loop-jump-in-suppressing-with"
+KeyGuardCapture == "capture-kept-after-failed-guard"
 
 \* ---- (e) in-place mutators of list / dict / set that have no impl function: the inferred type of the container stays
 \* what it was (the impl table of implementation.py models append / extend / += / add / dict setitem / setdefault /
@@ -386,8 +398,32 @@ Dev_UnmodelledMutator(cls, via) ==
 \* ---- (g) list.extend / list.__iadd__ with a literal (KnownValue) str argument: _list_extend_or_iadd_impl checks the
 \* element type only for TypedValue iterables, a literal str falls through and the list type stays unchanged
 KeyExtendKnown == "list-extend-literal-str-unchecked"
+AllKnown(T) == T.k = "known" \/ (T.k = "union" /\ T.ms # << >> /\ \A i \in 1..Len(T.ms) : T.ms[i].k = "known")
 Dev_ListExtendKnown(cls, via, argval, arginf) ==
-    cls = "list" /\ via \in {"aug+", ".extend"} /\ arginf.k = "known" /\ argval.c = "str" /\ argval.v # ""
+    cls = "list" /\ via \in {"aug+", ".extend"} /\ AllKnown(arginf) /\ argval.c = "str" /\ argval.v # ""
+
+\* ---- (h) `m += <list>` on a list the checker knows literally (KnownValue): the augmented assignment is folded by
+\* performing the in-place operation on the very object the KnownValue holds, so every earlier value that shares the
+\* object (the state before an `if`, before a loop that is not entered) changes with it: `m = []` / `if y: m += [1]` /
+\* reveal_type(m) reveals Literal[[1]].  Static part: the function contains such a statement on a variable the node
+\* reads; event part: the inferred type names a literal list.
+KeyKnownList == "known-list-mutated-in-place"
+RECURSIVE HasKnownList(_)
+HasKnownList(T) ==
+    CASE T.k = "known" -> T.o.c = "list"
+      [] T.k = "union" -> \E i \in 1..Len(T.ms) : HasKnownList(T.ms[i])
+      [] OTHER -> FALSE
+Dev_KnownListMutated(stores, reads, inf) ==
+    /\ HasKnownList(inf)
+    /\ \E k \in 1..Len(stores) : stores[k].via = "aug+" /\ SeqToSet(stores[k].names) \cap reads # {}
+
+\* ---- (i) the assignments of the else clause of a loop reach the test and the body of that loop (C09's open finding
+\* loop-else seen through inferred values): a node of the loop that reads a variable assigned in the else clause is typed
+\* with that assignment's value too, and narrowing on it can go wrong (x[0] typed Never)
+KeyWhileElse == "loop-else-assignment-seen-in-loop"
+\* ---- domain: a value that came out of an expression typed Any (gradual typing: an Any argument does not take part in
+\* solving a type variable, so min(<Any>, y) is typed like y)
+KeyAny == "flows-from-any"
 
 \* ---- (f) a value whose static type is an abstract class without __bool__ / __len__ (Iterable) is assumed always
 \* truthy although the runtime object (a list, a str) can be empty
